@@ -241,7 +241,8 @@ class HamiltonianChain(MarkovChain):
         return G
 
     def get_last(self) -> ndarray:
-        return self.theta[-1]
+        # (a copy, as the other chains return: the array in the chain is the chain's)
+        return self.theta[-1].copy()
 
     def replace_last(self, theta: ndarray):
         # (a float copy of the values, as for the start point: the caller's array stays
